@@ -338,9 +338,14 @@ def canon_schedules():
                 k._act("WriteAck" + ("V1" if p["proto"] == "v1" else "V2"), "B", pkt=p, ack=["ok"])   # second write must fail
         ph = k.sync("A")
         for p in pk:
-            ack = ["ok"] * len(p["data"]) if all(d.startswith("ok") or d.startswith("async") for d in p["data"]) else (["err"] if p["proto"] == "v1" else ["SENTINEL"])
+            if all(d.startswith("ok") or d.startswith("async") for d in p["data"]):
+                ack = ["ok"] if p["proto"] == "v1" else [d if d in ("ok1", "ok2") else "ok" for d in p["data"]]
+                if p["data"][0].startswith("async"):
+                    ack = ["ok"]
+            else:
+                ack = ["err"] if p["proto"] == "v1" else ["SENTINEL"]
             k.relay("Ack", "A", p, ph, ack=ack, canon=True)
-        k.relay("Ack", "A", pk[0], ph, ack=["ok"] * len(pk[0]["data"]), canon=True)   # duplicate ack: no-op
+        k.relay("Ack", "A", pk[0], ph, ack=["ok"], canon=True)   # duplicate ack: no-op
         # a packet that times out: short height timeout (v1) / seconds timeout (v2)
         t = k.send("B", "v1", ["ok"], toT=0, toH=k.h["A"] + 2) if v1 else k.send("B", "v2", ["ok"], toT=(2 + len(k.s["acts"]) + 4) // 2 + 1)
         for _ in range(6):
